@@ -65,7 +65,7 @@ class Runner:
         if isinstance(func, functools.partial):
             base = func.func
             if getattr(base, "__symx_clone__", False) or getattr(base, "__symx_kernel__", False) or getattr(base, "__name__", None) in self.kernels or \
-                    (getattr(base, "__module__", "") or "").startswith("numpy"):
+                    (getattr(base, "__module__", "") or "").startswith(("numpy", "symx.")):
                 kw = dict(func.keywords)
                 kw.update(kwargs)
                 return self._apply(base, list(func.args) + list(args), kw)
@@ -87,7 +87,7 @@ class Runner:
         if any(isinstance(a, SArr) for a in args) or any(isinstance(a, SArr) for a in kwargs.values()) or \
                 any(isinstance(a, (list, tuple)) and _has_sarr(a) for a in args):
             mod = getattr(func, "__module__", "") or ""
-            if mod.startswith(("numpy", "_operator", "operator")) or name in SAFE_NAMES:
+            if mod.startswith(("numpy", "_operator", "operator", "symx.")) or name in SAFE_NAMES:  # (symx.*: the NumPy shims)
                 return func(*args, **kwargs)
             raise core.Unsupported(f"block kernel {mod}.{name} has no symbolic-array meaning")
         return func(*args, **kwargs)
